@@ -7,7 +7,7 @@
      hbit_u64                 parity.c:363-372
      parity_handle_fill       parity.c:374-486   (the grow loop; `grow_ok` abstracts parity_handle_grow)
      parity_handle_chsize     parity.c:488-539
-     parity_split_is_fixed    parity.c:541-555
+     parity_split_is_fixed    parity.c:541-552   (a split is fixed iff ANY later split has a non-zero size)
      parity_chsize            parity.c:557-660
      parity_truncate          parity.c:774-796
      PARITY_LIMIT             parity.c:29-30     (per-split pseudo random limit of --test-parity-limit)
@@ -188,14 +188,18 @@ Definition handle_chsize (grow_ok : N -> bool) (bs : N) (h : hsplit) (size : N) 
   | Ok st' => Ok {| sz := sz h; st := st'; valid := if st' <? valid h then st' else valid h |}
   end.
 
-(* parity_chsize, first loop.  parity_split_is_fixed(handle, s) reads the size of split s+1, which this
-   loop has not touched yet: it is the head of `rest`.  grow_ok s x: growing split s to x succeeds. *)
+(* parity_split_is_fixed(handle, s): `for (++s; s < split_mac; ++s) if (split_map[s].size != 0) return 1; return 0;`
+   -- over the splits after s, i.e. the tail of the list *)
+Definition later_used (rest : list hsplit) : bool := existsb (fun n => negb (sz n =? 0)) rest.
+
+(* parity_chsize, first loop.  parity_split_is_fixed reads the sizes of the splits after s, which this loop has
+   not touched yet: they are `rest`.  grow_ok s x: growing split s to x succeeds. *)
 Fixpoint chsize_loop (grow_ok : nat -> N -> bool) (bs : N) (s : nat) (hs : list hsplit) (size : N)
   : res (list hsplit * N) :=
   match hs with
   | [] => Ok ([], size)
   | h :: rest =>
-    let fixed0 := match rest with [] => false | n :: _ => negb (sz n =? 0) end in
+    let fixed0 := later_used rest in
     let keep := fixed0 && negb (size <=? sz h) in      (* is_fixed after the `size <= split->size` test *)
     let run := if keep then sz h else size in
     if keep && misaligned bs run then Err EFixedMisaligned else
@@ -268,7 +272,7 @@ Fixpoint chsize_loop_trace (grow_ok : nat -> N -> bool) (bs : N) (s : nat) (hs :
   match hs with
   | [] => []
   | h :: rest =>
-    let fixed0 := match rest with [] => false | n :: _ => negb (sz n =? 0) end in
+    let fixed0 := later_used rest in
     let keep := fixed0 && negb (size <=? sz h) in
     let run := if keep then sz h else size in
     if keep && misaligned bs run then [] else
